@@ -1,3 +1,4 @@
 pub mod c14;
 pub mod c16;
+pub mod c20;
 mod playback_gen;
